@@ -72,7 +72,7 @@ def h_gate(t, part):
                [['username', 'u'], ['password', 'pw']], {'auth': dict(CRED)}, {'username': 'u', 'password': ['pw']},
                {'username': s1, 'password': s2}, dict(CRED2), 'u:pw'][pk]
     with notrace():
-        w = worlds.SWorld(asyncio_, async_handlers=False)
+        w = worlds.SWorld(asyncio_, async_handlers=False, always_connect=part.get('always_connect', False))
         if asyncio_:
             async def oc(sid, environ):
                 return None
@@ -106,6 +106,12 @@ def h_gate(t, part):
         return Fail('admin:gate:exception:%s' % type(w.eio.contained[0][1]).__name__, repr(w.eio.contained[0]))
     answers = [g for g in got if g[0] in (packet.CONNECT, packet.CONNECT_ERROR) and g[1] == ADMIN]
     accepted = any(g[0] == packet.CONNECT for g in answers)
+    if part.get('always_connect'):
+        # the server answers CONNECT first; a refusal is the DISCONNECT that follows it
+        ended = [g for g in got if g[0] == packet.DISCONNECT and g[1] == ADMIN]
+        accepted = accepted and not ended
+        if not allowed and not accepted:
+            answers = [(packet.CONNECT_ERROR, ADMIN, None, 'CONNECT followed by DISCONNECT')] if ended else answers
     if accepted != allowed:
         return Fail('admin:gate:%s:%s' % ('wrongly-accepted' if accepted else 'wrongly-refused', conf),
                     'config %s, predicate answers (%r/%r), payload %r -> %r' % (conf, yes_val, no_val, payload, answers))
@@ -302,6 +308,8 @@ def gate_parts(tier):
                                                                        ('production', False), ('production', True)]
             for mode, ro in modes:
                 out.append({'async': a, 'conf': conf, 'mode': mode, 'read_only': ro})
+        for conf in ('dict', 'predicate'):
+            out.append({'async': a, 'conf': conf, 'mode': 'development', 'read_only': False, 'always_connect': True})
     return out
 
 
